@@ -409,6 +409,57 @@ def case_dataset(B, cfg):
                  e.level() * e.duration(), d)
             B.fact('ID %s dose %d: a single event' % (lab, k),
                    e.period() == 0 and e.multiplier() == 0)
+    # the system each individual's likelihood simulates receives that
+    # individual's doses (and nobody else's), in whatever order the
+    # likelihoods are created
+    import pints
+    try:
+        n = ctrl.get_n_parameters()
+        ctrl.set_log_prior(pints.ComposedLogPrior(
+            *[pints.HalfCauchyLogPrior(0, 1) for _ in range(n)]))
+        posts = []
+        if cfg.get('population'):
+            # one hierarchical posterior over all individuals (order of the
+            # IDs in the data set)
+            ctrl.set_population_model(chi.ComposedPopulationModel(
+                [chi.PooledModel() for _ in range(n)]))
+            ctrl.set_log_prior(pints.ComposedLogPrior(
+                *[pints.HalfCauchyLogPrior(0, 1) for _ in range(n)]))
+            hp = ctrl.get_log_posterior()
+            posts = list(hp.get_log_likelihood()._log_likelihoods)
+            n_want = len(first)
+        else:
+            seq = list(range(len(labels))) + list(
+                cfg.get('then_individually', []))
+            for j in seq:
+                posts.append(ctrl.get_log_posterior(
+                    individual=str(labels[j])).get_log_likelihood())
+            n_want = len(seq)
+    except Exception as e:
+        B.fact('no-exception:get_log_posterior', False, repr(e))
+        return
+    B.fact('one likelihood per individual requested', len(posts) == n_want,
+           repr(len(posts)))
+    for q, post in enumerate(posts):
+        lab = post.get_id()
+        idx = [i for i, l in enumerate(labels) if str(l) == str(lab)]
+        B.fact('posterior %d: ID is one of the data set' % q, len(idx) == 1,
+               repr(lab))
+        if len(idx) != 1:
+            continue
+        mm = post.get_submodels()['Mechanistic model']
+        reg = mm.dosing_regimen()
+        ev = [] if reg is None else reg.events()
+        w = want[idx[0]]
+        tag = 'likelihood %d (ID %s)' % (q, lab)
+        B.fact('%s: simulated system receives exactly the individual\'s '
+               'dose events' % tag, len(ev) == len(w),
+               '%d vs %d' % (len(ev), len(w)))
+        for k, (e, (t, d, u)) in enumerate(zip(ev, w)):
+            B.eq('%s dose %d: start' % (tag, k), e.start(), t)
+            B.eq('%s dose %d: duration' % (tag, k), e.duration(), u)
+            B.eq('%s dose %d: amount' % (tag, k), e.level() * e.duration(),
+                 d)
 
 
 def jobs(tier):
@@ -424,11 +475,14 @@ def jobs(tier):
             out.append(('dataset', 'case_dataset', dict(
                 direct=(k % 2 == 0), layout=[list(a), ['B', 'M', 'D']],
                 order=order, ids=[['a', 'b'], [2, 1], ['10', '9']][k % 3],
-                duration_column=(k % 5 != 4)), FACADE))
+                duration_column=(k % 5 != 4),
+                then_individually=[[], [1, 0], [0], [0, 1, 0]][k % 4],
+                population=(k % 4 == 0)), FACADE))
         k += 1
     out.append(('dataset', 'case_dataset', dict(
         direct=True, layout=[['D', 'B'], ['M'], ['B', 'X', 'D']],
-        order='interleaved', ids=[3, 1, 2]), FACADE))
+        order='interleaved', ids=[3, 1, 2], then_individually=[1, 0, 1]),
+        FACADE))
     for direct in (True, False):
         for num in (None, 0, 1, 2, 3):
             for period in (False, True):
